@@ -181,6 +181,15 @@ func runCheck(id, tier string, w *World, loadErr error, t0 time.Time) int {
 				}
 			}()
 			c.Run(cx)
+			// the failure model every rule stands on ("a refused operation faults, a faulted invocation persists
+			// nothing") is itself decided, for the contracts the property speaks about: no catching frame outside
+			// the who-may-catch table; payment refusals abort
+			if scope, ok := catchScope[c.ID]; ok {
+				checkCatchingFrames(cx, scope...)
+			}
+			if c.ID == "C19" || c.ID == "C03" {
+				checkAbortNotThrow(cx)
+			}
 			if tier == "thorough" {
 				noDynamicCalls(cx)
 			}
@@ -314,4 +323,14 @@ func finish(c *Check, cx *CheckCtx, t0 time.Time) int {
 	sort.Strings(rules)
 	fmt.Printf("%s tier=%s obligations=%d holds=%d known=%d violations=%d wall=%.1fs [%s]\n", c.ID, cx.Tier, len(cx.Obls), nHold, nKnown, nViol, time.Since(t0).Seconds(), strings.Join(rules, " "))
 	return exit
+}
+
+var allContracts = []string{"alphabet", "audit", "balance", "container", "neofs", "neofsid", "netmap", "nns", "processing", "proxy", "reputation"}
+
+// catchScope: the contracts whose catching frames are checked under each property.
+var catchScope = map[string][]string{
+	"C01": {"balance"}, "C02": {"balance"}, "C03": allContracts, "C04": {"container"}, "C05": {"container", "balance"},
+	"C06": {"netmap"}, "C07": {"netmap"}, "C08": {"netmap"}, "C09": {"balance", "netmap"}, "C10": {"nns"}, "C11": {"nns"},
+	"C12": {"nns"}, "C14": {"container"}, "C16": allContracts, "C17": {"neofs"}, "C18": {"nns"},
+	"C19": {"neofs", "alphabet", "proxy", "processing"}, "C20": {"container", "netmap", "reputation", "audit", "neofsid"},
 }
